@@ -216,6 +216,13 @@ func callerYAML(r *hx.Rng, act string, af iface, wf string, wfi iface) string {
 	if r.Chance(1, 4) {
 		b.WriteString("  mat:\n    runs-on: ubuntu-latest\n    strategy:\n      matrix: ${{ github }}\n    steps:\n      - run: echo ${{ matrix.sha }}\n")
 	}
+	if r.Chance(1, 4) {
+		// an include element of object type from a built-in context, followed by a literal element
+		b.WriteString("  inc:\n    runs-on: ubuntu-latest\n    strategy:\n      matrix:\n        include:\n          - ${{ github.event }}\n          - foo: 1\n    steps:\n      - run: echo ${{ matrix.foo }}\n")
+	}
+	if r.Chance(1, 4) {
+		b.WriteString("  ev:\n    runs-on: ubuntu-latest\n    steps:\n      - run: echo ${{ github.event.foo.bar }}\n")
+	}
 	fmt.Fprintf(&b, "  call:\n    uses: %s\n", wf)
 	var wi []string
 	for i, n := range wfi.names {
@@ -359,6 +366,7 @@ func main() {
 			t.files = append(t.files, g)
 		}
 		addRepo("repo")
+		addRepo("Repo") // differs from "repo" in letter case only (case-sensitive file systems)
 		addRepo("repo2")
 		addRepo("repo-extra")
 		addRepo("outer")
@@ -503,7 +511,7 @@ func main() {
 		}
 	}
 	sum.Nontrivial = nontrivial
-	sum.Samples = append(sum.Samples, map[string]interface{}{"attribution_roots": []string{"repo", "repo2", "repo-extra", "outer", "outer/vendor/inner", "outer/vendor/inner/deep/innermost"}})
+	sum.Samples = append(sum.Samples, map[string]interface{}{"attribution_roots": []string{"repo", "Repo", "repo2", "repo-extra", "outer", "outer/vendor/inner", "outer/vendor/inner/deep/innermost"}})
 	sum.Write(filepath.Join(*out, "summary.json"))
 	os.RemoveAll(scratch)
 }
